@@ -36,6 +36,12 @@ def build_cases(tier, seed):
         cs += [("rd", c) for c in fam.prof_list(W3, 2, (F(1, 2), F(1, 3)), c3)]
         cs += [("rd", c) for c in fam.prof_list(fam.rank_family(4), 2, (1, 2), fam.cands(4))]
         famtxt = "Prof(Weak(3),3,{1,2}) + Prof(Weak(3),2,{1/2,1/3}) + Prof(Rank(4),2,{1,2})"
+    # uncondensed variants: a ranking repeated on another ballot with a different weight
+    base = fam.prof_list(W3, 2, (1, 2), c3)
+    for (cands_, bl) in base[:: (5 if tier == "quick" else 1)]:
+        cs.append(("rd", (cands_, bl + ((bl[0][0], 5),))))
+        cs.append(("rd", (cands_, ((bl[-1][0], F(1, 3)),) + bl)))
+    famtxt += " + uncondensed variants (a ranking repeated on another ballot)"
     for tag, c in common.rank_profiles(tier, rational=False, extra4=False):
         cs.append(("tb", c))
     for c in common.weak_profiles("quick"):
